@@ -90,7 +90,7 @@ def alphaC11 : List T :=
   [.op (.recordSent 1), .op (.recordSent 2), .op (.recordSent 3),
    .op (.recordAck 0 0), .op (.recordAck 0 1), .op (.recordAck 0 2), .op (.recordAck 0 3),
    .op (.recordAck 1 1), .op (.recordAck 1 2), .op (.recordAck 1 3),
-   .op (.cancel 0), .op (.cancel 1), .op (.advance 0), .op (.advance 1),
+   .op (.cancel 0), .op (.cancel emptyReason), .op (.advance 0), .op (.advance 1),
    .op (.requestResume 7 0 0), .op (.requestResume 7 0 1), .op (.requestResume 7 0 2),
    .op (.requestResume 7 1 0), .op (.requestResume 7 1 1), .op (.requestResume 7 1 2),
    .op (.waitCredit 1), .op (.waitCredit 2), .op (.waitCredit 3), .op .waitReconnect,
@@ -99,6 +99,12 @@ def alphaC11 : List T :=
 def alphaC11s : List T :=
   [.op (.recordSent 1), .op (.recordSent 3), .op (.recordAck 0 1), .op (.recordAck 0 3), .op (.recordAck 1 3),
    .op (.waitCredit 1), .op (.waitCredit 3), .op (.cancel 0), .op (.advance 1), .op (.requestResume 7 0 1)]
+
+/-- cancel with every edge reason string, and everything that reports or could disturb the reason -/
+def alphaC11r : List T :=
+  [.op (.cancel 0), .op (.cancel idleReason), .op (.cancel emptyReason), .op (.cancel blankReason),
+   .op (.cancel longReason), .op (.cancel unicodeReason), .op (.cancel nulReason), .op (.cancel paddedIdleReason),
+   .op (.waitCredit 3), .op .waitReconnect, .op (.advance 1), .op (.requestResume 7 0 0)]
 
 def alphaC13 : List T :=
   [.push 0 0, .push 0 1, .push 1 0, .push 1 1, .push 2 0, .push 2 1,
@@ -117,6 +123,7 @@ def domain (d : String) : Option (Nat × Nat × List T) :=
   match d.splitOn "." with
   | ["c11"] => some (2, 3, alphaC11)
   | ["c11s"] => some (2, 3, alphaC11s)
+  | ["c11r"] => some (2, 3, alphaC11r)
   | ["c13", cap] => cap.toNat?.map fun c => (4, c, alphaC13)
   | ["c13s", cap] => cap.toNat?.map fun c => (4, c, alphaC13s)
   | _ => none
@@ -252,7 +259,8 @@ def showReasonW : Option Nat → String
   | some r => if r = idleReason then "idle" else toString r
 
 /-- A: idle transfer with some state; B: cancelled with reason 5 before the watchdog runs (visited with a stale
-and with a fresh `is_cancelled`); C, D: never visited with `idle = true` (unregistered / far-future timeout). -/
+and with a fresh `is_cancelled`); C, D: never visited with `idle = true` (unregistered / far-future timeout);
+E: like A but cancelled with the empty reason before the watchdog runs. -/
 def watchdogLine (f : Facts) (m : OvMode) (idx : String) : String :=
   let setup : List Op := [.setPeer 3, .pushReplay 0 5 false [1, 2, 3, 4, 5], .recordSent 5, .recordAck 0 2]
   let a0 := run f m (init 8 64) setup
@@ -261,7 +269,9 @@ def watchdogLine (f : Facts) (m : OvMode) (idx : String) : String :=
   let b0 := run f m (init 8 64) [.cancel 5]
   let b1 := run f m b0 (watchdogVisit false true ++ watchdogVisit true true)
   let c1 := run f m (init 8 64) (watchdogVisit false false)
-  s!"{idx} watchdog A={showReasonW a1.cancelled}/{if same then "same" else "changed"} B={showReasonW b1.cancelled} C={showReasonW c1.cancelled} D={showReasonW c1.cancelled} reg=ok"
+  let e0 := run f m a0 [.cancel emptyReason]
+  let e1 := run f m e0 (watchdogVisit false true ++ watchdogVisit true true)
+  s!"{idx} watchdog A={showReasonW a1.cancelled}/{if same then "same" else "changed"} B={showReasonW b1.cancelled} C={showReasonW c1.cancelled} D={showReasonW c1.cancelled} E={showReasonW e1.cancelled} reg=ok"
 
 /-! ### line protocol -/
 
